@@ -3,6 +3,7 @@ package rules
 import (
 	"fmt"
 	"go/token"
+	"go/types"
 	"sort"
 	"strconv"
 	"strings"
@@ -49,6 +50,7 @@ func runC02(c *Ctx) {
 		"R3-proof-blob: the NT response is proof ‖ blob where proof = Sum of hmac.New(md5.New, key) with key = the identity HMAC's Sum (same SSA value, or ntowfv2 called with role-correct arguments), the HMAC absorbs the 8-byte server challenge first and then exactly the segments that follow the proof in the response (same SSA values, every write into them precedes the proof). " +
 		"R4-blob-layout (E2 atoms of internal/codec + E5 identity): the blob starts 01 01 00×6, then an 8-byte little-endian integer (timestamp), then the 8-byte client challenge (the struct field / the caller's 8-byte crypto/rand buffer, unmodified), then 00×4, then the target information. " +
 		"R5-hashcat: (*NTLMv2).ToHashcatString formats \"%s::%s:%s:%s:%s\" from (Username, Domain, hex(ServerChallenge), hex(response[:16]), hex(response[16:])) where response is the result of Hash() — hashcat mode 5600 parses field 4 as NTProofStr and field 5 as the blob. " +
+		"Shapes decided (behaviour-preserving rewrites stay silent): the three DESL chains may be written out, or be the iterations of one counted loop (range over an array / an int, or for i := 0; i < 3; i++) whose key is row i of a constant local table of three key slices or the window hash[7i:7i+7] of the zero-padded hash (append of zero bytes, or a zero-initialised [21]byte written by one copy of the hash at offset 0); each entry point may hold them itself or forward to ONE shared unexported helper (hash, challenge) whose parameters are then bound to the entry point's arguments — the per-entry-point obligations are the same either way; the ciphertexts are concatenated, appended one per loop iteration to an accumulator that starts empty, or encrypted in place into windows [0:8], [8:16], [16:24] of the returned 24-byte buffer. The NTOWFv2 identity HMAC may sit in the function or one call level down in a helper that returns the Sum of an HMAC over its own parameters (bound to the call's arguments). The NTLMv2 blob may be built by append (including binary.LittleEndian.AppendUint64 and literal bytes into a pre-sized buffer) or be one zero-initialised buffer filled at constant offsets (byte stores, PutUint64, copy). The hashcat line may be fmt.Sprintf or the equivalent string concatenation. " +
 		"NOT decided: DES and HMAC-MD5 numerics (standard library, trusted); the bit arithmetic of ParityAdjust/ParityBit (value-level; the exhaustive 7-bit check the property mentions is a dynamic technique) — only that every key passes through it; that caller-supplied NT hashes are 16 bytes and challenges 8 bytes; the value of the timestamp (ntlmv2.Hash uses UnixNano/100 without the 1601 epoch offset — a value-level matter not judged here); well-formedness of the AV pairs inside the blob (ntlmv2.Hash appends the raw UTF-16 domain, not AV pairs); acceptance by a real server; LMv2; session keys and MIC."
 	r.Assumptions = []string{
 		cryTrusted,
@@ -99,6 +101,16 @@ type deslChain struct {
 	hash    ssa.Value
 	lo, hi  int
 	desc    string
+	// loop form: this chain is iteration `iter` of the loop around Encrypt `loop`
+	loop *ssa.Call
+	iter int
+	// window already resolved (affine in the loop counter): key0 = wX[wLo:wHi]
+	pre      bool
+	wX       ssa.Value
+	wLo, wHi int
+	// in-place destination: out is the window [outLo:outLo+8] of the buffer outObj
+	outObj ssa.Value
+	outLo  int
 }
 
 func (c *deslChain) isOut(v ssa.Value) bool {
@@ -109,24 +121,246 @@ func (c *deslChain) isOut(v ssa.Value) bool {
 	return c.out != nil && flow.Strip(v) == flow.Strip(c.out)
 }
 
-// directDesl: the ParityAdjust → des.NewCipher → Encrypt chains written in fn itself.
+// loopCounter: idx is the counter of a loop that runs it over 0..n-1 in steps
+// of one (range over an array / an int, or `for i := 0; i < n; i++`), n a
+// constant, and `body` executes in every iteration.
+func loopCounter(idx ssa.Value, body *ssa.BasicBlock) (phi *ssa.Phi, n int, ok bool) {
+	rangeForm := false
+	switch y := idx.(type) {
+	case *ssa.Phi:
+		phi = y
+	case *ssa.BinOp:
+		if p, isPhi := y.X.(*ssa.Phi); isPhi && y.Op == token.ADD {
+			if k, okk := constI(y.Y); okk && k == 1 {
+				phi, rangeForm = p, true
+			}
+		}
+	}
+	if phi == nil || len(phi.Edges) != 2 {
+		return nil, 0, false
+	}
+	if !rangeForm {
+		// `for i := range 3`: the test is rotated to the end of the body
+		if bound, okR := rotatedLoop(phi); okR && (phi.Block() == body || phi.Block().Dominates(body)) {
+			if k, isK := constI(bound); isK && k >= 1 && k <= 16 {
+				return phi, int(k), true
+			}
+			return nil, 0, false
+		}
+	}
+	var init int64
+	var next ssa.Value
+	found := false
+	for i, e := range phi.Edges {
+		if k, isK := constI(e); isK {
+			init, next, found = k, phi.Edges[1-i], true
+		}
+	}
+	if !found {
+		return nil, 0, false
+	}
+	if rangeForm {
+		if init != -1 || next != idx {
+			return nil, 0, false
+		}
+	} else {
+		nb, isB := next.(*ssa.BinOp)
+		if !isB || nb.Op != token.ADD || nb.X != ssa.Value(phi) || init != 0 {
+			return nil, 0, false
+		}
+		if k, isK := constI(nb.Y); !isK || k != 1 {
+			return nil, 0, false
+		}
+	}
+	hb := phi.Block()
+	iff, isIf := hb.Instrs[len(hb.Instrs)-1].(*ssa.If)
+	if !isIf {
+		return nil, 0, false
+	}
+	cmp, isB := iff.Cond.(*ssa.BinOp)
+	if !isB || cmp.Op != token.LSS || cmp.X != idx {
+		return nil, 0, false
+	}
+	if !(hb.Succs[0] == body || hb.Succs[0].Dominates(body)) {
+		return nil, 0, false
+	}
+	k, isK := constI(cmp.Y)
+	if !isK {
+		// len(array) folds to a constant; len(x) of a fixed-size local does not
+		if lc, isC := cmp.Y.(*ssa.Call); isC {
+			if bi, isBi := lc.Call.Value.(*ssa.Builtin); isBi && bi.Name() == "len" {
+				if sl := flow.StaticLen(lc.Call.Args[0]); sl >= 0 {
+					k, isK = int64(sl), true
+				}
+			}
+		}
+	}
+	if !isK || k < 1 || k > 16 {
+		return nil, 0, false
+	}
+	return phi, int(k), true
+}
+
+// tableElems: v is element idx of a local array whose n elements are each
+// stored exactly once, at a constant index, before the loop: returns them.
+func tableElems(v ssa.Value, loopHead *ssa.BasicBlock) (idx ssa.Value, elems []ssa.Value, ok bool) {
+	var arr *ssa.Alloc
+	switch y := v.(type) {
+	case *ssa.Index: // t = *A; t[i]
+		ld, isL := y.X.(*ssa.UnOp)
+		if !isL || ld.Op != token.MUL {
+			return nil, nil, false
+		}
+		arr, _ = ld.X.(*ssa.Alloc)
+		idx = y.Index
+	case *ssa.UnOp: // *(&A[i])
+		if y.Op != token.MUL {
+			return nil, nil, false
+		}
+		ia, isIA := y.X.(*ssa.IndexAddr)
+		if !isIA {
+			return nil, nil, false
+		}
+		arr, _ = ia.X.(*ssa.Alloc)
+		idx = ia.Index
+	}
+	if arr == nil {
+		return nil, nil, false
+	}
+	at, isArr := arr.Type().Underlying().(*types.Pointer).Elem().Underlying().(*types.Array)
+	if !isArr || at.Len() < 1 || at.Len() > 16 {
+		return nil, nil, false
+	}
+	elems = make([]ssa.Value, at.Len())
+	for _, r := range *arr.Referrers() {
+		switch y := r.(type) {
+		case *ssa.DebugRef:
+		case *ssa.UnOp:
+			if y.Op != token.MUL {
+				return nil, nil, false
+			}
+		case *ssa.IndexAddr:
+			k, isK := constI(y.Index)
+			for _, rr := range *y.Referrers() {
+				switch z := rr.(type) {
+				case *ssa.Store:
+					if z.Addr != ssa.Value(y) || !isK || k < 0 || k >= at.Len() || elems[k] != nil {
+						return nil, nil, false
+					}
+					if flow.InLoop(z) || (loopHead != nil && !(z.Block() == loopHead || z.Block().Dominates(loopHead))) {
+						return nil, nil, false
+					}
+					elems[k] = z.Val
+				case *ssa.UnOp:
+					if z.Op != token.MUL {
+						return nil, nil, false
+					}
+				case *ssa.DebugRef:
+				default:
+					return nil, nil, false
+				}
+			}
+		default:
+			return nil, nil, false
+		}
+	}
+	for _, e := range elems {
+		if e == nil {
+			return nil, nil, false
+		}
+	}
+	return idx, elems, true
+}
+
+// directDesl: the ParityAdjust → des.NewCipher → Encrypt chains written in fn
+// itself. A chain inside a counted loop over a constant table of keys (or over
+// windows whose bounds are affine in the loop counter) is unrolled into one
+// chain per iteration.
 func (x *c02) directDesl(fn *ssa.Function) []*deslChain {
 	var out []*deslChain
 	for _, enc := range invokes(fn, "Encrypt") {
 		ch := &deslChain{at: enc.Pos(), lo: -1}
-		out = append(out, ch)
 		nc, idx, ok := tupleResult(enc.Call.Value, x.fDesNew)
 		if !ok || idx != 0 {
 			ch.desc = "cipher " + flow.Expr(enc.Call.Value) + " is not the result of des.NewCipher in this function"
+			out = append(out, ch)
 			continue
 		}
 		pa, idx, ok := tupleResult(nc.Call.Args[0], x.fParity)
 		if !ok || idx != 0 {
 			ch.desc = "DES key " + flow.Expr(nc.Call.Args[0]) + " is not the result of ParityAdjust (the 7→8 byte odd-parity expansion is skipped)"
+			out = append(out, ch)
 			continue
 		}
 		ch.key0, ch.plain, ch.out = pa.Call.Args[0], enc.Call.Args[1], enc.Call.Args[0]
 		ch.dstOK = flow.StaticLen(ch.out) == 8
+		if root, lo, _, okb := bufRoot(flow.Strip(ch.out)); okb && ch.dstOK && objLen(root) == 24 {
+			ch.outObj, ch.outLo = root, lo
+		}
+		if !flow.InLoop(enc) {
+			out = append(out, ch)
+			continue
+		}
+		// ---- loop form
+		if !(flow.Dominates(pa, nc) && flow.Dominates(nc, enc)) {
+			ch.desc = "the chain sits in a loop and its steps are not in one straight line of the body"
+			out = append(out, ch)
+			continue
+		}
+		var n int
+		var counter ssa.Value
+		var elems []ssa.Value
+		k0 := flow.Strip(ch.key0)
+		if ti, te, okT := tableElems(k0, nil); okT {
+			// re-check placement against the loop head once the counter is known
+			if phi, cnt, okC := loopCounter(ti, pa.Block()); okC && cnt == len(te) {
+				if _, te2, ok2 := tableElems(k0, phi.Block()); ok2 {
+					n, counter, elems = cnt, ti, te2
+				}
+			}
+		} else if sl, isS := k0.(*ssa.Slice); isS && sl.Low != nil && sl.High != nil {
+			// hash[m·i+a : m·i+b]
+			lb, lm, la := affine(sl.Low)
+			hb, hm, ha := affine(sl.High)
+			if lb != nil && lb == hb && lm == hm && lm > 0 {
+				if _, cnt, okC := loopCounter(lb, pa.Block()); okC {
+					n, counter = cnt, lb
+					for k := 0; k < cnt; k++ {
+						out = append(out, &deslChain{at: enc.Pos(), lo: -1, key0: ch.key0, plain: ch.plain, out: ch.out, dstOK: ch.dstOK,
+							loop: enc, iter: k, pre: true, wX: sl.X, wLo: int(lm)*k + int(la), wHi: int(hm)*k + int(ha)})
+					}
+				}
+			}
+		}
+		if n == 0 {
+			ch.desc = "the chain sits in a loop whose key is neither an element of a constant local table indexed by the loop counter nor a window that is affine in it"
+			out = append(out, ch)
+			continue
+		}
+		// in-place destination result[8·i : 8·i+8]
+		var oObj ssa.Value
+		om, oa := int64(0), int64(0)
+		if ds, isS := flow.Strip(ch.out).(*ssa.Slice); isS && ds.Low != nil && ds.High != nil {
+			lb, lm, la := affine(ds.Low)
+			hb, hm, ha := affine(ds.High)
+			if lb == counter && hb == counter && lm == hm && ha-la == 8 {
+				if root, lo, _, okb := bufRoot(ds.X); okb && lo == 0 && objLen(root) == 24 {
+					oObj, om, oa = root, lm, la
+				}
+			}
+		}
+		first := len(out) - n
+		if elems != nil {
+			first = len(out)
+			for k := 0; k < n; k++ {
+				out = append(out, &deslChain{at: enc.Pos(), lo: -1, key0: elems[k], plain: ch.plain, out: ch.out, dstOK: ch.dstOK, loop: enc, iter: k})
+			}
+		}
+		if oObj != nil {
+			for k := 0; k < n; k++ {
+				out[first+k].outObj, out[first+k].outLo, out[first+k].dstOK = oObj, int(om)*k+int(oa), true
+			}
+		}
 	}
 	return out
 }
@@ -146,7 +380,7 @@ func (x *c02) deslChains(fn *ssa.Function) []*deslChain {
 				continue
 			}
 			gc := x.directDesl(g)
-			if len(gc) != 1 || gc[0].desc != "" {
+			if len(gc) != 1 || gc[0].desc != "" || gc[0].loop != nil {
 				continue
 			}
 			kp, ok1 := flow.Strip(gc[0].key0).(*ssa.Parameter)
@@ -187,6 +421,18 @@ func (x *c02) zeroTail(v ssa.Value, base ssa.Value) (n int, total int, ok bool) 
 			}
 		}
 	}
+	// make([]byte, k - len(base)) is zero-filled too
+	if m, okm := flow.Strip(v).(*ssa.MakeSlice); okm && x.e.ReadOnly(m) {
+		if sub, oks := m.Len.(*ssa.BinOp); oks && sub.Op == token.SUB {
+			if k, okk := constI(sub.X); okk {
+				if lc, okl := sub.Y.(*ssa.Call); okl {
+					if bi, isB := lc.Call.Value.(*ssa.Builtin); isB && bi.Name() == "len" && sameCell(x.e, lc.Call.Args[0], base) {
+						return -1, int(k), true
+					}
+				}
+			}
+		}
+	}
 	return 0, 0, false
 }
 
@@ -205,6 +451,50 @@ func sameCell(e *flow.Engine, a, b ssa.Value) bool {
 		return oka && okb && fa.Field == fb.Field && flow.Strip(fa.X) == flow.Strip(fb.X)
 	}
 	return false
+}
+
+// windowOf: the key is X[lo:hi]; resolves X to the hash it holds (X itself, or
+// the hash zero-padded by an append).
+func (x *c02) windowOf(X ssa.Value, lo, hi int) (hash ssa.Value, rlo, rhi int, why string) {
+	if ap, okc := flow.Strip(X).(*ssa.Call); okc {
+		if bi, isB := ap.Call.Value.(*ssa.Builtin); isB && bi.Name() == "append" && len(ap.Call.Args) == 2 {
+			_, total, okz := x.zeroTail(ap.Call.Args[1], ap.Call.Args[0])
+			if !okz {
+				return nil, 0, 0, "the key buffer is extended by " + flow.Expr(ap.Call.Args[1]) + ", which is not provably zero bytes"
+			}
+			if total >= 0 && hi > total {
+				return nil, 0, 0, fmt.Sprintf("window [%d:%d] reaches past the %d bytes the key is padded to", lo, hi, total)
+			}
+			if total < 0 {
+				// append(hash, k zero bytes): windows beyond 16+k would read past the padding of a 16-byte hash
+				if n, _, _ := x.zeroTail(ap.Call.Args[1], ap.Call.Args[0]); n >= 0 && hi > 16+n {
+					return nil, 0, 0, fmt.Sprintf("window [%d:%d] reaches past the 16-byte hash and its %d zero bytes", lo, hi, n)
+				}
+			}
+			return ap.Call.Args[0], lo, hi, ""
+		}
+	}
+	// a zero-initialised local buffer of at least 21 bytes that holds the hash at
+	// its start: var k [21]byte; copy(k[:], hash)
+	if root, off, _, ok := bufRoot(flow.Strip(X)); ok && objLen(root) >= 21 {
+		if in, isI := root.(ssa.Instruction); isI {
+			ws, okw := x.fixedWrites(in.Parent(), root)
+			switch {
+			case okw && len(ws) == 1 && ws[0].kind == "copy" && ws[0].lo == 0:
+				if off+hi > 21 {
+					return nil, 0, 0, fmt.Sprintf("window [%d:%d] reaches past the 21 bytes of the padded hash", off+lo, off+hi)
+				}
+				return ws[0].val, off + lo, off + hi, ""
+			case okw && len(ws) == 1 && ws[0].kind == "copy":
+				return nil, 0, 0, fmt.Sprintf("the hash is copied to offset %d of the key buffer, not to its start", ws[0].lo)
+			}
+			return nil, 0, 0, "the key buffer " + flow.Expr(root) + " is not a zero-initialised buffer written by one copy of the hash only"
+		}
+	}
+	if hi > 16 {
+		return nil, 0, 0, fmt.Sprintf("window [%d:%d] reaches past the 16-byte hash without zero padding", lo, hi)
+	}
+	return X, lo, hi, ""
 }
 
 // window resolves a 7-byte DES key source to (hash, lo, hi).
@@ -233,22 +523,7 @@ func (x *c02) window(k0 ssa.Value) (hash ssa.Value, lo, hi int, why string) {
 		if !ok || hi < 0 {
 			return nil, 0, 0, "key window " + flow.Expr(k0) + " does not have constant bounds"
 		}
-		if ap, okc := y.X.(*ssa.Call); okc {
-			if bi, isB := ap.Call.Value.(*ssa.Builtin); isB && bi.Name() == "append" && len(ap.Call.Args) == 2 {
-				_, total, okz := x.zeroTail(ap.Call.Args[1], ap.Call.Args[0])
-				if !okz {
-					return nil, 0, 0, "the key buffer is extended by " + flow.Expr(ap.Call.Args[1]) + ", which is not provably zero bytes"
-				}
-				if total >= 0 && hi > total {
-					return nil, 0, 0, fmt.Sprintf("window [%d:%d] reaches past the %d bytes the key is padded to", lo, hi, total)
-				}
-				return ap.Call.Args[0], lo, hi, ""
-			}
-		}
-		if hi > 16 {
-			return nil, 0, 0, fmt.Sprintf("window [%d:%d] reaches past the 16-byte hash without zero padding", lo, hi)
-		}
-		return y.X, lo, hi, ""
+		return x.windowOf(y.X, lo, hi)
 	case *ssa.Call:
 		if bi, isB := y.Call.Value.(*ssa.Builtin); isB && bi.Name() == "append" && len(y.Call.Args) == 2 {
 			if s, oks := y.Call.Args[0].(*ssa.Slice); oks {
@@ -266,20 +541,185 @@ func (x *c02) window(k0 ssa.Value) (hash ssa.Value, lo, hi int, why string) {
 	return nil, 0, 0, "key source " + flow.Expr(k0) + " is not a constant window of the hash"
 }
 
+// deslForward: fn computes nothing itself and returns result #0 of ONE call of
+// an in-module helper (a DESL routine shared by the entry points).
+func (x *c02) deslForward(fn *ssa.Function) (*ssa.Function, *ssa.Call) {
+	var call *ssa.Call
+	rets := cryptoSuccessReturns(fn)
+	if len(rets) == 0 {
+		return nil, nil
+	}
+	for _, ret := range rets {
+		if len(ret.Results) == 0 {
+			return nil, nil
+		}
+		v := flow.Strip(ret.Results[0])
+		if ex, ok := v.(*ssa.Extract); ok {
+			if ex.Index != 0 {
+				return nil, nil
+			}
+			v = ex.Tuple
+		}
+		c, ok := v.(*ssa.Call)
+		if !ok || (call != nil && c != call) {
+			return nil, nil
+		}
+		call = c
+	}
+	g := call.Call.StaticCallee()
+	if g == nil || g == fn || g.Blocks == nil || !x.P.InModule(g) || x.opaque[g] || g.Signature.Recv() != nil {
+		return nil, nil
+	}
+	return g, call
+}
+
+// deslOrder: the value returned by afn is the ciphertexts of `chains` (already
+// sorted by key window) in that order.
+func (x *c02) deslOrder(afn *ssa.Function, ret *ssa.Return, chains []*deslChain) (bool, string) {
+	rv := flow.Strip(ret.Results[0])
+	// in place: every ciphertext is the window [8k:8k+8] of the one returned buffer
+	if o := chains[0].outObj; o != nil {
+		same := true
+		for _, ch := range chains {
+			if ch.outObj != o {
+				same = false
+			}
+		}
+		if same {
+			root, lo, _, ok := bufRoot(rv)
+			if !ok || root != o || lo != 0 || flow.StaticLen(rv) != 24 {
+				return false, "the response is " + flow.Expr(ret.Results[0]) + ", not the 24-byte buffer the three ciphertexts are written into"
+			}
+			for i, ch := range chains {
+				if ch.outLo != 8*i {
+					return false, fmt.Sprintf("the ciphertext of key window [%d:%d] is written at offset %d of the response, not %d", ch.lo, ch.hi, ch.outLo, 8*i)
+				}
+			}
+			encs := map[ssa.Instruction]bool{}
+			for _, in := range invokes(afn, "Encrypt") {
+				encs[in] = true
+			}
+			for _, w := range x.e.WritersOf(afn, o) {
+				if !encs[w] {
+					return false, "the response buffer is also written by something other than the three Encrypt calls"
+				}
+			}
+			return true, "three ciphertexts written in place at offsets 0, 8 and 16, in window order"
+		}
+	}
+	// loop form: acc = φ(empty, append(acc, ct…)), one append per iteration
+	if lp := chains[0].loop; lp != nil {
+		for i, ch := range chains {
+			if ch.loop != lp {
+				return false, "the chains do not all come from one loop"
+			}
+			if ch.iter != i {
+				return false, fmt.Sprintf("iteration %d of the loop uses key window [%d:%d]: the ciphertexts are appended out of window order", ch.iter, ch.lo, ch.hi)
+			}
+		}
+		phi, ok := rv.(*ssa.Phi)
+		if !ok || len(phi.Edges) != 2 {
+			return false, "the response " + flow.Expr(ret.Results[0]) + " is not an accumulator carried round the loop"
+		}
+		var ap *ssa.Call
+		var init ssa.Value
+		for i, e := range phi.Edges {
+			c, isC := flow.Strip(e).(*ssa.Call)
+			if !isC {
+				continue
+			}
+			bi, isB := c.Call.Value.(*ssa.Builtin)
+			if !isB || bi.Name() != "append" || len(c.Call.Args) != 2 {
+				continue
+			}
+			base := flow.Strip(c.Call.Args[0])
+			if base == ssa.Value(phi) {
+				ap, init = c, phi.Edges[1-i]
+				continue
+			}
+			// rotated loop (range over an int): the accumulator φ sits in the body and
+			// the value after the loop is a second φ over the same two values
+			if pb, isPhi := base.(*ssa.Phi); isPhi && len(pb.Edges) == 2 {
+				for j, pe := range pb.Edges {
+					if flow.Strip(pe) == ssa.Value(c) && flow.Strip(pb.Edges[1-j]) == flow.Strip(phi.Edges[1-i]) {
+						ap, init = c, phi.Edges[1-i]
+					}
+				}
+			}
+		}
+		switch {
+		case ap == nil:
+			return false, "the loop does not extend the response by one append per iteration"
+		case flow.Strip(ap.Call.Args[1]) != flow.Strip(chains[0].out):
+			return false, "the loop appends " + flow.Expr(ap.Call.Args[1]) + ", not the Encrypt destination"
+		case !flow.Dominates(lp, ap):
+			return false, "the append does not follow the Encrypt in every iteration"
+		case !emptySlice(init) && flow.StaticLen(init) != 0:
+			return false, "the response does not start empty: " + flow.Expr(init)
+		}
+		return true, "one ciphertext appended per loop iteration, iterations in window order"
+	}
+	for _, ch := range chains {
+		if ch.loop != nil {
+			return false, "some chains are loop iterations and some are not"
+		}
+	}
+	segs := x.e.Segs(ret.Results[0], nil)
+	ok := len(segs) == 3
+	for i := 0; ok && i < 3; i++ {
+		if !chains[i].isOut(segs[i].V) {
+			ok = false
+		}
+	}
+	if ok {
+		return true, "three ciphertexts in window order"
+	}
+	var got []string
+	for _, s := range segs {
+		got = append(got, flow.Expr(s.V))
+	}
+	return false, "the response is " + strings.Join(got, " ‖ ") + ", not the three ciphertexts in the order of their key windows"
+}
+
 func (x *c02) desl(fn *ssa.Function, hashNeeds []need, hashWhat string) string {
 	name := x.P.FuncName(fn)
+	// afn holds the chains: fn itself, or the shared DESL helper fn forwards to.
+	// lift maps a value of afn to the value of fn it stands for.
+	afn := fn
+	lift := func(v ssa.Value) (ssa.Value, string) { return v, "" }
 	chains := x.deslChains(fn)
+	via := ""
+	if len(chains) == 0 {
+		if g, call := x.deslForward(fn); g != nil {
+			afn, chains = g, x.deslChains(g)
+			via = " (in the shared helper " + x.P.FuncName(g) + ")"
+			lift = func(v ssa.Value) (ssa.Value, string) {
+				p, ok := flow.Strip(v).(*ssa.Parameter)
+				if !ok || paramIndex(g, p) < 0 || paramIndex(g, p) >= len(call.Call.Args) {
+					return nil, flow.Expr(v) + " is not a parameter of the shared helper " + x.P.FuncName(g)
+				}
+				return call.Call.Args[paramIndex(g, p)], ""
+			}
+		}
+	}
 	cc := name + ": three ParityAdjust → des.NewCipher → Encrypt chains"
 	if len(chains) != 3 {
 		x.R.Fail(c02R1, cc, x.pos(fn.Pos()), fmt.Sprintf("%d Encrypt chains, DESL has exactly three", len(chains)))
 		return ""
 	}
-	x.R.OK(c02R1, cc, x.pos(fn.Pos()), "three Encrypt chains")
+	x.R.OK(c02R1, cc, x.pos(fn.Pos()), "three Encrypt chains"+via)
 	for _, ch := range chains {
 		if ch.desc != "" {
 			continue
 		}
-		h, lo, hi, why := x.window(ch.key0)
+		var h ssa.Value
+		var lo, hi int
+		var why string
+		if ch.pre {
+			h, lo, hi, why = x.windowOf(ch.wX, ch.wLo, ch.wHi)
+		} else {
+			h, lo, hi, why = x.window(ch.key0)
+		}
 		if why != "" {
 			ch.desc = why
 			continue
@@ -316,41 +756,39 @@ func (x *c02) desl(fn *ssa.Function, hashNeeds []need, hashWhat string) string {
 		x.R.OK(c02R1, kc, x.pos(ch.at), "window of "+flow.Expr(ch.hash))
 		desc = append(desc, fmt.Sprintf("[%d:%d]", ch.lo, ch.hi))
 		// hash source
-		set := x.e.Prov(fn, ch.hash)
-		bad, und := judge(set, hashNeeds, constsOnly)
-		x.verdict(c02R1, fmt.Sprintf("%s: chain [%d:%d] hash = %s", name, ch.lo, ch.hi, hashWhat), ch.at, bad, und, trim(set.String(), 200))
+		hc := fmt.Sprintf("%s: chain [%d:%d] hash = %s", name, ch.lo, ch.hi, hashWhat)
+		if hv, why := lift(ch.hash); hv == nil {
+			x.R.Undecided(c02R1, hc, x.pos(ch.at), "the hash the key is cut from: "+why)
+		} else {
+			set := x.e.Prov(fn, hv)
+			bad, und := judge(set, hashNeeds, constsOnly)
+			x.verdict(c02R1, hc, ch.at, bad, und, trim(set.String(), 200))
+		}
 		// Encrypt(dst, ServerChallenge)
 		ec := fmt.Sprintf("%s: chain [%d:%d] Encrypt(fresh 8 bytes, ServerChallenge)", name, ch.lo, ch.hi)
-		sset := x.e.Prov(fn, ch.plain)
-		bad, und = judge(sset, []need{{what: "the ServerChallenge field", src: isField(0, "ServerChallenge")}}, nil)
-		if bad == "" && und == "" && !ch.dstOK {
-			bad = "the Encrypt destination is not a fresh 8-byte buffer"
+		if pv, why := lift(ch.plain); pv == nil {
+			x.R.Undecided(c02R1, ec, x.pos(ch.at), "the plaintext: "+why)
+		} else {
+			sset := x.e.Prov(fn, pv)
+			bad, und := judge(sset, []need{{what: "the ServerChallenge field", src: isField(0, "ServerChallenge")}}, nil)
+			if bad == "" && und == "" && !ch.dstOK {
+				bad = "the Encrypt destination is not a fresh 8-byte buffer"
+			}
+			x.verdict(c02R1, ec, ch.at, bad, und, "plaintext "+trim(sset.String(), 100))
 		}
-		x.verdict(c02R1, ec, ch.at, bad, und, "plaintext "+trim(sset.String(), 100))
 	}
 	// return = ct1 ‖ ct2 ‖ ct3 in window order
 	rc := name + ": return = ct[0:7] ‖ ct[7:14] ‖ ct[14:21]"
 	complete := len(desc) == 3
-	for _, ret := range cryptoSuccessReturns(fn) {
-		segs := x.e.Segs(ret.Results[0], nil)
+	for _, ret := range cryptoSuccessReturns(afn) {
 		if !complete {
 			x.R.Undecided(rc, rc, x.pos(ret.Pos()), "the chains could not all be resolved")
 			continue
 		}
-		ok := len(segs) == 3
-		for i := 0; ok && i < 3; i++ {
-			if !chains[i].isOut(segs[i].V) {
-				ok = false
-			}
-		}
-		if ok {
-			x.R.OK(c02R1, rc, x.pos(ret.Pos()), "three ciphertexts in window order")
+		if ok, msg := x.deslOrder(afn, ret, chains); ok {
+			x.R.OK(c02R1, rc, x.pos(ret.Pos()), msg+via)
 		} else {
-			var got []string
-			for _, s := range segs {
-				got = append(got, flow.Expr(s.V))
-			}
-			x.R.Fail(c02R1, rc, x.pos(ret.Pos()), "the response is "+strings.Join(got, " ‖ ")+", not the three ciphertexts in the order of their key windows")
+			x.R.Fail(c02R1, rc, x.pos(ret.Pos()), msg)
 		}
 	}
 	if !complete {
@@ -545,20 +983,60 @@ func (x *c02) isMD5(h *flow.HashUse) bool {
 	return ok && f == x.fMd5New
 }
 
+// idHMAC is an HMAC computation as seen from the analysed function: written in
+// it, or in an in-module helper it calls (the helper's parameters bound to the
+// call's arguments). val is the MAC value in the analysed function.
+type idHMAC struct {
+	d   *flow.HashDesc
+	val ssa.Value
+	pos token.Pos
+}
+
+// hmacsDeep: the hmac.New computations of fn, including those one call level
+// down in a helper that returns the Sum of an HMAC over its own parameters.
+func (x *c02) hmacsDeep(fn *ssa.Function) ([]idHMAC, string) {
+	var out []idHMAC
+	hs, why := x.hmacs(fn)
+	if hs == nil && why != "" {
+		return nil, why
+	}
+	for _, h := range hs {
+		out = append(out, idHMAC{d: &flow.HashDesc{Ctor: h.New.Common().StaticCallee(), CtorArgs: h.New.Common().Args, Input: x.e.HashInput(h, x.dist), Sum: h.Sum}, val: h.Sum, pos: h.New.Pos()})
+	}
+	for _, b := range fn.Blocks {
+		for _, in := range b.Instrs {
+			call, ok := in.(*ssa.Call)
+			if !ok {
+				continue
+			}
+			g := call.Call.StaticCallee()
+			if g == nil || g == fn || g.Blocks == nil || !x.P.InModule(g) || x.opaque[g] || len(callsTo(g, x.fHmacNew)) == 0 {
+				continue
+			}
+			d, _ := x.e.DeepHash(call, x.dist)
+			if d == nil || d.Via == nil || d.Ctor != x.fHmacNew {
+				continue
+			}
+			out = append(out, idHMAC{d: d, val: call, pos: call.Pos()})
+		}
+	}
+	return out, ""
+}
+
 // identity checks R2 at one site and returns the identity HMAC.
-func (x *c02) identity(s v2site) *flow.HashUse {
+func (x *c02) identity(s v2site) *idHMAC {
 	fn := s.fn
 	name := x.P.FuncName(fn)
-	hs, why := x.hmacs(fn)
+	hs, why := x.hmacsDeep(fn)
 	ic := name + ": NTOWFv2 identity HMAC"
-	if hs == nil {
+	if hs == nil && why != "" {
 		x.R.Undecided(c02R2, ic, x.pos(fn.Pos()), why)
 		return nil
 	}
-	var id *flow.HashUse
-	for _, h := range hs {
+	var id *idHMAC
+	for i := range hs {
 		dep := false
-		for _, sg := range x.e.HashInput(h, x.dist) {
+		for _, sg := range hs[i].d.Input {
 			if len(x.e.SegProv(fn, sg).From(s.user)) > 0 {
 				dep = true
 			}
@@ -568,24 +1046,30 @@ func (x *c02) identity(s v2site) *flow.HashUse {
 				x.R.Undecided(c02R2, ic, x.pos(fn.Pos()), "more than one HMAC absorbs the user name")
 				return nil
 			}
-			id = h
+			id = &hs[i]
 		}
 	}
 	if id == nil {
 		x.R.Fail(c02R2, ic, x.pos(fn.Pos()), "no HMAC in this function absorbs "+s.userW)
 		return nil
 	}
-	if !x.isMD5(id) {
-		x.R.Fail(c02R2, ic, x.pos(id.New.Pos()), "the identity MAC is not hmac.New(md5.New, …)")
+	via := ""
+	if id.d.Via != nil {
+		via = " (in helper " + x.P.FuncName(id.d.Via) + ")"
+	}
+	if f, ok := flow.Strip(id.d.CtorArgs[0]).(*ssa.Function); !ok || f != x.fMd5New || len(id.d.CtorArgs) != 2 {
+		x.R.Fail(c02R2, ic, x.pos(id.pos), "the identity MAC is not hmac.New(md5.New, …)")
 	} else {
-		x.R.OK(c02R2, ic, x.pos(id.New.Pos()), "hmac.New(md5.New, key)")
+		x.R.OK(c02R2, ic, x.pos(id.pos), "hmac.New(md5.New, key)"+via)
 	}
 	// key
-	kset := x.e.Prov(fn, id.New.Call.Args[1])
-	bad, und := judge(kset, s.keyNeeds, constsOnly)
-	x.verdict(c02R2, name+": NTOWFv2 key = NT hash", id.New.Pos(), bad, und, trim(kset.String(), 200))
+	if len(id.d.CtorArgs) == 2 {
+		kset := x.e.Prov(fn, id.d.CtorArgs[1])
+		bad, und := judge(kset, s.keyNeeds, constsOnly)
+		x.verdict(c02R2, name+": NTOWFv2 key = NT hash", id.pos, bad, und, trim(kset.String(), 200))
+	}
 	// input: user then domain
-	segs := x.e.HashInput(id, x.dist)
+	segs := id.d.Input
 	var us, ds []int
 	for i, sg := range segs {
 		p := x.e.SegProv(fn, sg)
@@ -600,20 +1084,20 @@ func (x *c02) identity(s v2site) *flow.HashUse {
 	dc := name + ": NTOWFv2 identity [domain ← " + s.domRule + "]"
 	oc := name + ": NTOWFv2 identity [user precedes domain, nothing else]"
 	if len(segs) == 2 && len(us) == 1 && len(ds) == 1 && us[0] == 0 && ds[0] == 1 {
-		x.R.OK(c02R2, oc, x.pos(id.Sum.Pos()), "two segments: "+flow.Expr(segs[0].V)+" then "+flow.Expr(segs[1].V))
+		x.R.OK(c02R2, oc, x.pos(id.pos), "two segments: "+flow.Expr(segs[0].V)+" then "+flow.Expr(segs[1].V))
 	} else {
 		var got []string
 		for _, sg := range segs {
 			got = append(got, flow.Expr(sg.V))
 		}
-		x.R.Fail(c02R2, oc, x.pos(id.Sum.Pos()), fmt.Sprintf("the identity HMAC absorbs [%s]; NTOWFv2 hashes exactly Uppercase(user) followed by the domain (user segments %v, domain segments %v)", strings.Join(got, " ‖ "), us, ds))
+		x.R.Fail(c02R2, oc, x.pos(id.pos), fmt.Sprintf("the identity HMAC absorbs [%s]; NTOWFv2 hashes exactly Uppercase(user) followed by the domain (user segments %v, domain segments %v)", strings.Join(got, " ‖ "), us, ds))
 	}
 	if len(us) >= 1 {
 		p := x.e.SegProv(fn, segs[us[0]])
 		bad, und := judge(p, []need{{what: s.userW, src: s.user, must: []string{x.lUpper, x.lEnc}}}, constsOnly)
-		x.verdict(c02R2, uc, id.Sum.Pos(), bad, und, trim(p.String(), 200))
+		x.verdict(c02R2, uc, id.pos, bad, und, trim(p.String(), 200))
 	} else {
-		x.R.Fail(c02R2, uc, x.pos(id.Sum.Pos()), "no hashed segment derives from "+s.userW)
+		x.R.Fail(c02R2, uc, x.pos(id.pos), "no hashed segment derives from "+s.userW)
 	}
 	if len(ds) >= 1 {
 		p := x.e.SegProv(fn, segs[ds[len(ds)-1]])
@@ -621,9 +1105,9 @@ func (x *c02) identity(s v2site) *flow.HashUse {
 		if bad != "" {
 			bad += s.domWhy
 		}
-		x.verdict(c02R2, dc, id.Sum.Pos(), bad, und, trim(p.String(), 200))
+		x.verdict(c02R2, dc, id.pos, bad, und, trim(p.String(), 200))
 	} else {
-		x.R.Fail(c02R2, dc, x.pos(id.Sum.Pos()), "no hashed segment derives from "+s.domW)
+		x.R.Fail(c02R2, dc, x.pos(id.pos), "no hashed segment derives from "+s.domW)
 	}
 	return id
 }
@@ -738,7 +1222,7 @@ func (x *c02) r2r3r4() {
 }
 
 // proof checks R3 and R4 for the function whose result #ri is the NT response.
-func (x *c02) proof(fn *ssa.Function, ri int, id *flow.HashUse, roles map[int]string, sc func(flow.Source) bool, scW string, cc func(flow.Source) bool, ccW string) {
+func (x *c02) proof(fn *ssa.Function, ri int, id *idHMAC, roles map[int]string, sc func(flow.Source) bool, scW string, cc func(flow.Source) bool, ccW string) {
 	name := x.P.FuncName(fn)
 	fOwf := x.P.Func(cryNTLM, "", "ntowfv2")
 	for _, ret := range cryptoSuccessReturns(fn) {
@@ -766,7 +1250,7 @@ func (x *c02) proof(fn *ssa.Function, ri int, id *flow.HashUse, roles map[int]st
 		kc := name + ": proof key = NTOWFv2 result"
 		key := flow.Strip(d.CtorArgs[1])
 		switch {
-		case id != nil && key == ssa.Value(id.Sum):
+		case id != nil && key == flow.Strip(id.val):
 			x.R.OK(c02R3, kc, x.pos(ret.Pos()), "the Sum of the identity HMAC of "+c02R2+" (same SSA value)")
 		case id != nil:
 			x.R.Fail(c02R3, kc, x.pos(ret.Pos()), "the proof is keyed by "+flow.Expr(key)+", not by the NTOWFv2 value computed in this function")
@@ -849,10 +1333,15 @@ func (x *c02) proof(fn *ssa.Function, ri int, id *flow.HashUse, roles map[int]st
 				if !isC {
 					break
 				}
-				if bi, isB := c.Call.Value.(*ssa.Builtin); !isB || bi.Name() != "append" {
-					break
+				if bi, isB := c.Call.Value.(*ssa.Builtin); isB && bi.Name() == "append" {
+					v = c.Call.Args[0]
+					continue
 				}
-				v = c.Call.Args[0]
+				if f := c.Call.StaticCallee(); f != nil && len(c.Call.Args) == 3 && (strings.HasPrefix(f.String(), "(encoding/binary.littleEndian).AppendUint") || strings.HasPrefix(f.String(), "(encoding/binary.bigEndian).AppendUint")) {
+					v = c.Call.Args[1]
+					continue
+				}
+				break
 			}
 		}
 		if late != "" {
@@ -921,6 +1410,9 @@ func (x *c02) layout(fn *ssa.Function, val ssa.Value, cc func(flow.Source) bool,
 		x.R.Undecided(c02R4, name+": blob layout", x.pos(fn.Pos()), "the response is not append(proof, blob...) with one blob value")
 		return
 	}
+	if x.layoutFixed(lfn, fn, site, val, cc, ccW) {
+		return
+	}
 	ext := codec.NewExt(x.w, lfn)
 	atoms := ext.Seq(val)
 	x.R.Extra["blob_layout "+lname] = codec.Render(atoms)
@@ -974,8 +1466,8 @@ func (x *c02) layout(fn *ssa.Function, val ssa.Value, cc func(flow.Source) bool,
 			ccSeg = &segs[k]
 			break
 		}
-		n := flow.StaticLen(segs[k].V)
-		if b, ok := x.e.ConstBytes(segs[k].V); ok {
+		n := segs[k].Len()
+		if b, ok := x.e.ConstBytes(segs[k].V); ok && segs[k].N == 0 {
 			n = len(b)
 		}
 		if n < 0 {
@@ -1021,6 +1513,197 @@ func (x *c02) layout(fn *ssa.Function, val ssa.Value, cc func(flow.Source) bool,
 	} else {
 		x.R.Fail(c02R4, rc, x.pos(lfn.Pos()), "after the client challenge come "+hexOf(z)+"; Reserved3 is four zero bytes")
 	}
+}
+
+// fixedWrite is one write into a zero-initialised local buffer at a constant offset.
+type fixedWrite struct {
+	lo, hi int       // [lo, hi); hi == -1: open (a copy of a value of unknown length)
+	kind   string    // "byte" (constant k), "uint" (PutUintN of val), "copy" (of val), "dyn" (non-constant byte)
+	k      byte      // kind byte
+	val    ssa.Value // kind uint / copy / dyn
+	be     bool
+	at     ssa.Instruction
+}
+
+// fixedWrites lists every write into the local buffer root, if all of them are
+// stores of bytes at constant indices, PutUintN or copy into constant windows,
+// outside loops.
+func (x *c02) fixedWrites(fn *ssa.Function, root ssa.Value) ([]fixedWrite, bool) {
+	var out []fixedWrite
+	for _, w := range x.e.WritersOf(fn, root) {
+		if flow.InLoop(w) || w.Parent() != fn {
+			return nil, false
+		}
+		switch y := w.(type) {
+		case *ssa.Store:
+			ia, ok := y.Addr.(*ssa.IndexAddr)
+			if !ok {
+				return nil, false
+			}
+			idx, isK := constI(ia.Index)
+			r, off, _, okb := bufRoot(flow.Strip(ia.X))
+			if !isK || !okb || r != root {
+				return nil, false
+			}
+			fw := fixedWrite{lo: off + int(idx), hi: off + int(idx) + 1, kind: "dyn", val: y.Val, at: y}
+			if k, isC := constI(y.Val); isC && k >= 0 && k < 256 {
+				fw.kind, fw.k = "byte", byte(k)
+			}
+			out = append(out, fw)
+		case *ssa.Call:
+			cc := y.Common()
+			if bi, isB := cc.Value.(*ssa.Builtin); isB && bi.Name() == "copy" {
+				r, off, lim, okb := bufRoot(flow.Strip(cc.Args[0]))
+				if !okb || r != root {
+					return nil, false
+				}
+				fw := fixedWrite{lo: off, hi: -1, kind: "copy", val: cc.Args[1], at: y}
+				if n := flow.StaticLen(cc.Args[1]); n >= 0 {
+					fw.hi = off + n
+				}
+				if lim >= 0 && (fw.hi < 0 || fw.hi > lim) {
+					fw.hi = lim
+				}
+				out = append(out, fw)
+				continue
+			}
+			f := cc.StaticCallee()
+			if f == nil || len(cc.Args) != 3 {
+				return nil, false
+			}
+			name, be := f.String(), false
+			switch {
+			case strings.HasPrefix(name, "(encoding/binary.littleEndian).PutUint"):
+				name = strings.TrimPrefix(name, "(encoding/binary.littleEndian).PutUint")
+			case strings.HasPrefix(name, "(encoding/binary.bigEndian).PutUint"):
+				name, be = strings.TrimPrefix(name, "(encoding/binary.bigEndian).PutUint"), true
+			default:
+				return nil, false
+			}
+			width := map[string]int{"16": 2, "32": 4, "64": 8}[name]
+			r, off, _, okb := bufRoot(flow.Strip(cc.Args[1]))
+			if width == 0 || !okb || r != root {
+				return nil, false
+			}
+			out = append(out, fixedWrite{lo: off, hi: off + width, kind: "uint", val: cc.Args[2], be: be, at: y})
+		default:
+			return nil, false
+		}
+	}
+	return out, len(out) > 0
+}
+
+// layoutFixed decides R4 for a blob that is ONE zero-initialised buffer filled
+// at constant offsets (blob[0], blob[1] = 1, 1; PutUint64(blob[8:], ts);
+// copy(blob[16:], cc); copy(blob[28:], info)). It reports false — and records
+// nothing — when the blob is not of this form.
+func (x *c02) layoutFixed(lfn, fn *ssa.Function, site *ssa.Call, val ssa.Value, cc func(flow.Source) bool, ccW string) bool {
+	root, off0, _, ok := bufRoot(flow.Strip(val))
+	if !ok || off0 != 0 {
+		return false
+	}
+	ws, ok := x.fixedWrites(lfn, root)
+	if !ok {
+		return false
+	}
+	lname := x.P.FuncName(lfn)
+	// the buffer is at least 28 bytes long
+	minLen := objLen(root)
+	if m, isM := root.(*ssa.MakeSlice); isM && minLen < 0 {
+		if _, mul, add := affine(m.Len); mul >= 0 {
+			minLen = int(add)
+		}
+	}
+	covering := func(i int) []fixedWrite {
+		var out []fixedWrite
+		for _, w := range ws {
+			if i >= w.lo && (w.hi < 0 || i < w.hi) {
+				out = append(out, w)
+			}
+		}
+		return out
+	}
+	x.R.Extra["blob_layout "+lname] = fmt.Sprintf("one zero-initialised buffer with %d fixed-offset writes", len(ws))
+	// [0:8]
+	hc := lname + ": blob[0:8] = 01 01 00 00 00 00 00 00"
+	head := make([]byte, 8)
+	bad := ""
+	for i := 0; i < 8; i++ {
+		c := covering(i)
+		switch {
+		case len(c) == 0:
+		case len(c) == 1 && c[0].kind == "byte":
+			head[i] = c[0].k
+		default:
+			bad = fmt.Sprintf("byte %d of the blob is not a constant", i)
+		}
+	}
+	switch {
+	case minLen < 28:
+		x.R.Fail(c02R4, hc, x.pos(lfn.Pos()), "the blob buffer is not provably at least 28 bytes long")
+		return true
+	case bad != "":
+		x.R.Fail(c02R4, hc, x.pos(lfn.Pos()), bad+"; NTLMv2_CLIENT_CHALLENGE starts 01 01 00 00 00 00 00 00")
+		return true
+	case string(head) != string([]byte{1, 1, 0, 0, 0, 0, 0, 0}):
+		x.R.Fail(c02R4, hc, x.pos(lfn.Pos()), "the blob starts with "+hexOf(head)+"; NTLMv2_CLIENT_CHALLENGE starts 01 01 00 00 00 00 00 00")
+		return true
+	}
+	x.R.OK(c02R4, hc, x.pos(lfn.Pos()), "RespType 1, HiRespType 1, six reserved zero bytes (stored at fixed offsets of a zero-initialised buffer)")
+	// [8:16]
+	tc := lname + ": blob[8:16] = 8-byte little-endian timestamp"
+	var ts *fixedWrite
+	for i := 8; i < 16; i++ {
+		c := covering(i)
+		if len(c) != 1 || c[0].kind != "uint" || c[0].lo != 8 || c[0].hi != 16 {
+			x.R.Fail(c02R4, tc, x.pos(lfn.Pos()), fmt.Sprintf("byte %d of the blob is not part of one 8-byte integer written at offset 8; the TimeStamp is 8 bytes little-endian at offset 8", i))
+			return true
+		}
+		ts = &c[0]
+	}
+	if ts.be {
+		x.R.Fail(c02R4, tc, x.pos(ts.at.Pos()), "the timestamp is written big-endian; the TimeStamp is 8 bytes little-endian")
+		return true
+	}
+	x.R.OK(c02R4, tc, x.pos(ts.at.Pos()), "PutUint64 at offset 8, little-endian: "+flow.Expr(ts.val))
+	// [16:24]
+	ccC := lname + ": blob[16:24] = the client challenge"
+	var cw *fixedWrite
+	for i := 16; i < 24; i++ {
+		c := covering(i)
+		if len(c) != 1 || c[0].kind != "copy" || c[0].lo != 16 {
+			x.R.Fail(c02R4, ccC, x.pos(lfn.Pos()), fmt.Sprintf("byte %d of the blob is not written by one copy to offset 16; the client challenge occupies bytes 16..23", i))
+			return true
+		}
+		cw = &c[0]
+	}
+	ccVal, ccFn := cw.val, lfn
+	if p, isP := flow.Strip(ccVal).(*ssa.Parameter); isP && site != nil {
+		ccVal, ccFn = site.Call.Args[paramIndex(lfn, p)], fn
+	}
+	set := x.e.Prov(ccFn, ccVal)
+	var bd, und string
+	if cc != nil {
+		bd, und = judge(set, []need{{what: ccW, src: cc}}, nil)
+	} else {
+		bd, und = judge(set, []need{{what: "a crypto/rand.Read fill", src: func(s flow.Source) bool { return s.Kind == flow.SCall && s.Name == "crypto/rand.Read" }, must: []string{"crypto/rand.Read"}}}, nil)
+	}
+	if bd == "" && und == "" && flow.StaticLen(ccVal) != 8 {
+		bd = "the client challenge " + flow.Expr(ccVal) + " is not a fixed 8-byte value"
+	}
+	x.verdict(c02R4, ccC, cw.at.Pos(), bd, und, "client challenge is "+flow.Expr(ccVal)+": "+trim(set.String(), 120))
+	// [24:28]
+	rc := lname + ": blob[24:28] = 00 00 00 00"
+	for i := 24; i < 28; i++ {
+		for _, c := range covering(i) {
+			if !(c.kind == "byte" && c.k == 0) {
+				x.R.Fail(c02R4, rc, x.pos(c.at.Pos()), fmt.Sprintf("byte %d of the blob is written; Reserved3 is four zero bytes", i))
+				return true
+			}
+		}
+	}
+	x.R.OK(c02R4, rc, x.pos(lfn.Pos()), "four reserved zero bytes (never written), then the target information")
+	return true
 }
 
 // ---- R5 ---------------------------------------------------------------------------
